@@ -5,7 +5,7 @@
    without '\n'; the reader follows ANY schedule [sch] of read sizes. *)
 From Coq Require Import ZArith List Bool.
 From RM Require Import Base.Word C08.Model C11.Model C09.Model C09.Grammar C09.Driver C09.Proofs C09.ProofsBytes C09.ProofsFinish C09.ProofsFinal C09.ProofsTrace C09.Circular C09.ProofsCircular C09.ProofsLines C09.ProofsTable.
-From RM Require C09.Pins C09.PinsMem C08.Proofs C09.PinsNum Gen.C09Numeric C09.ProofsText C09.ProofsRecord C09.ProofsRecord2 C09.ProofsRecord3 C09.ProofsRecord4 C09.ProofsRecord5 C09.ProofsRecord6.
+From RM Require C09.Pins C09.PinsMem C08.Proofs C09.PinsNum Gen.C09Numeric C09.ProofsText C09.ProofsRecord C09.ProofsRecord2 C09.ProofsRecord3 C09.ProofsRecord4 C09.ProofsRecord5 C09.ProofsRecord6 C09.ProofsRecord7.
 Import ListNotations.
 Open Scope Z_scope.
 
@@ -749,3 +749,35 @@ Example c09_nonvacuous_inline_record :
    sub_inline (to_rle [73; 78; 76; 73; 78; 69; 32; 48; 32; 51; 32; 49; 32; 50; 32; 49; 48; 48; 48; 32; 49; 50; 51; 52; 53; 54; 55; 56; 57]))
   = (None, None).
 Proof. split; [exact ProofsRecord6.inline_line_example|vm_compute; reflexivity]. Qed.
+
+(* The dispatch between record kinds.  Every top-level line parser answers PErr (`alt` goes on to the next kind) iff the line
+   does not start with its KEYWORD followed by a space or tab - after the keyword the parser is under `cut`: POk or PFail (the
+   whole parse fails with "failed to parse file").  `line_top` = `alt` over the nine parsers in the order of parser.rs: the first
+   parser that does not answer PErr decides. *)
+Theorem c09_record_dispatch :
+  forall s : rle,
+    (p_info_url s = PErr <-> ~ ProofsRecord.has_header T_INFO_URL (PinsNum.expand s)) /\
+    (p_info s = PErr <-> ~ ProofsRecord.has_header T_INFO (PinsNum.expand s)) /\
+    (p_file s = PErr <-> ~ ProofsRecord.has_header T_FILE (PinsNum.expand s)) /\
+    (p_inline_origin s = PErr <-> ~ ProofsRecord.has_header T_INLINE_ORIGIN (PinsNum.expand s)) /\
+    (p_public s = PErr <-> ~ ProofsRecord.has_header T_PUBLIC (PinsNum.expand s)) /\
+    (p_func s = PErr <-> ~ ProofsRecord.has_header T_FUNC (PinsNum.expand s)) /\
+    (p_stack_win s = PErr <-> ~ ProofsRecord.has_header T_STACK_WIN (PinsNum.expand s)) /\
+    (p_stack_cfi_init s = PErr <-> ~ ProofsRecord.has_header T_STACK_CFI_INIT (PinsNum.expand s)) /\
+    (p_module s = PErr <-> ~ ProofsRecord.has_header T_MODULE (PinsNum.expand s)) /\
+    (forall ps it, alt ps s = Some it <->
+        exists pre p post, ps = pre ++ p :: post /\ Forall (fun q => q s = PErr) pre /\ p s = POk it) /\
+    (forall ps, alt ps s = None <->
+        Forall (fun q => q s = PErr) ps \/
+        exists pre p post, ps = pre ++ p :: post /\ Forall (fun q => q s = PErr) pre /\ p s = PFail) /\
+    line_top s = alt [p_info_url; p_info; p_file; p_inline_origin; p_public; p_func; p_stack_win; p_stack_cfi_init; p_module] s.
+Proof.
+  intros s.
+  split; [apply ProofsRecord7.p_info_url_err|]. split; [apply ProofsRecord7.p_info_err|].
+  split; [apply ProofsRecord7.p_file_err|]. split; [apply ProofsRecord7.p_inline_origin_err|].
+  split; [apply ProofsRecord7.p_public_err|]. split; [apply ProofsRecord7.p_func_err|].
+  split; [apply ProofsRecord7.p_stack_win_err|]. split; [apply ProofsRecord7.p_stack_cfi_init_err|].
+  split; [apply ProofsRecord7.p_module_err|].
+  split; [intros ps it; apply ProofsRecord7.alt_some|]. split; [intros ps; apply ProofsRecord7.alt_none|reflexivity].
+Qed.
+Print Assumptions c09_record_dispatch.
